@@ -761,6 +761,7 @@ Section Packed.
     - destruct (get_set m (c_num m) v m') as (G1 & G2 & G3 & G4); try assumption; try (rewrite Eu; assumption).
       assert (En' : c_num m' = (c_num m + 1)%N).
       { unfold cbl_set in E. destruct (c_unit m <? N.size v)%N; [discriminate|].
+        set (bb := set_loop 6 _ _ _ _ _) in E. clearbody bb.
         injection E as E'. rewrite <- E'. cbn [c_num]. lia. }
       split; [congruence|]. split; [exact G4|]. split; [rewrite app_length; cbn [length]; lia|].
       intros k Hk. rewrite app_length in Hk. cbn [length] in Hk.
